@@ -790,9 +790,70 @@ def _allocation_resolved(ctx):
                construct='allocation resolved for %s' % node.text(40))
 
 
+def _reboot_after_lifetime(ctx):
+    """C03.1b: leases are granted up to the server's valid_until
+    (now + lease < valid_until), so a server is put up for reboot only once
+    that time has passed: the scheduling of a reboot is guarded by
+    ``now > valid_until`` on the clock itself - a look-ahead (now + margin)
+    reboots a server under an instance whose granted lease has not ended."""
+    master = ctx.index.get_class(K.MASTER, 'Master')
+    func = master.methods.get('check_reboot')
+    ctx.require(func is not None, 'Master.check_reboot', rule='C03.1')
+    graph = ctx.cfg(func)
+    nz = N.Normaliser()
+    facts = N.must_facts(graph, nz)
+    sites = [n for n, _c in K.nodes_calling(
+        graph, lambda c: K.is_meth(c, '_schedule_reboot'))]
+    ctx.require(sites, 'reboot request in check_reboot', rule='C03.1',
+                func=func)
+    clocks = set(name for name, vals in M_local_defs(func).items()
+                 if len(vals) == 1 and N.txt(vals[0]) == 'time.time()')
+    for node in sites:
+        ok = False
+        seen = []
+        for fact in facts[node]:
+            key = fact.key
+            if key[0] != 'cmp' or key[1] not in ('<', '<='):
+                continue
+            terms = dict(key[2])
+            names = sorted(terms)
+            if len(names) == 2 and any(n.endswith('.valid_until')
+                                       for n in names):
+                seen.append(N.show(fact))
+                other = [n for n in names
+                         if not n.endswith('.valid_until')][0]
+                vu = [n for n in names if n.endswith('.valid_until')][0]
+                # valid_until < now  (no constant offset in the normal form)
+                if (other in clocks or other == 'time.time()') and \
+                        terms[vu] > 0 and not (len(key) > 3 and key[3]):
+                    ok = True
+        ctx.ob('C03.1', func, node, ok,
+               'a server is put up for reboot only once its valid_until has '
+               'passed on the clock (valid_until < now, no look-ahead) - '
+               'leases are granted right up to valid_until (found: %s)' %
+               (seen or 'no comparison with valid_until'),
+               construct='reboot only after valid_until')
+
+
+def M_local_defs(func):
+    defs = {}
+    for sub in K.walk_no_nested(func.node):
+        if isinstance(sub, ast.Assign) and len(sub.targets) == 1 and \
+                isinstance(sub.targets[0], ast.Name):
+            defs.setdefault(sub.targets[0].id, []).append(sub.value)
+    return defs
+
+
 def check(ctx):
     nz, server, put = _admission(ctx)
     _allocation_resolved(ctx)
+    _reboot_after_lifetime(ctx)
+    # shared with C06.7: an instance finds the allocation (hence the
+    # partition and required traits) it is assigned to - the table is filed
+    # and searched under the same key
+    from . import c06 as _c06
+    with ctx.shared({'C06': 'C03.4'}):
+        _c06._assignment_key(ctx)
     # shared with C01.6: the lease that the lifetime test reads is only
     # neutralised for the duration of a verbatim restore
     from . import c01
